@@ -508,7 +508,8 @@ def rule_munch(roles, tm):
     if not any(o.status == 'violated' for o in first):
         return first
     second = _rule_munch(roles, tm, roles.token_bodies(views='ho'))
-    if not any(o.status == 'violated' for o in second):
+    from engine import covers
+    if covers(first, second) and not any(o.status == 'violated' for o in second):
         for o in second:
             o.what += ' [read with higher-order helpers opened]'
         return second
@@ -537,8 +538,13 @@ def _rule_munch(roles, tm, bodies):
                 if kind in ('try', 'option'):
                     continue
                 if kind == 'pred' and detail.ruid is not None and _reaches_registry(prog, detail.ruid):
-                    has_reg = True
-                    continue
+                    # a registry *membership test of the candidate text*: the predicate is handed a str (the longer
+                    # slice) and nothing of the scanner; a predicate that also sees the scanner can look at what
+                    # follows the operator (layout, the next token) and is a further condition
+                    g = prog.by_id[detail.ruid]
+                    if not any((roles.tok_name or '\0') in g.locals[k]['ty'] for k in range(1, g.arg_count + 1)):
+                        has_reg = True
+                        continue
                 extra.append('bb%d: %s %s' % (sb, kind, (detail.rdef or detail.callee) if kind == 'pred' else (detail if isinstance(detail, str) else '')))
             if extra:
                 obs.append(bad('MUNCH', key, 'extending a symbolic operator also depends on %s: a registered operator containing such a character is split (not the longest registered operator)' % '; '.join(extra), a.where(), body=b.name, bb=a.bb))
